@@ -4,7 +4,7 @@
 use crate::core::{Ctx, PropCase, Verdict};
 use crate::ensure;
 use crate::fe::*;
-use crate::gen::stream::{self, NoiseTail};
+use crate::gen::stream;
 use crate::gen::payload;
 use crate::hexu::{hex_short, Case};
 use crate::refm::transport::{is_clean_noise, ref_encode, START};
@@ -159,8 +159,13 @@ impl PropCase for Resync {
         let mut got = Log::new();
         feed(d.as_mut(), &s, 0, &mut got);
         let sub = if self.lead_is_cut { "cut+frame/F1" } else { "noise+frame/F1" };
+        // where the discarded-bytes report surfaces is not prescribed by the property; the payload must be
+        // reported at the frame's last byte (C01)
+        let same = got.len() == want.len()
+            && got.iter().zip(want.iter()).all(|((pg, eg), (pw, ew))| eg == ew && (pg == pw || matches!(eg, TEv::Err(DErr::Discarded(_)))))
+            && got.windows(2).all(|w| w[0].0 <= w[1].0);
         ensure!(
-            got == want,
+            same,
             sub,
             log_str(&want),
             format!("{} (history {}, lead ..{}, buffer {})", log_str(&got), self.hist.name(), hex_short(&lead[lead.len().saturating_sub(12)..]), self.buf.name())
